@@ -103,7 +103,7 @@ def Heap.hRemove (h : Heap) (i : Nat) : Option (Heap × Nat) :=
 inductive Op where
   | add (t : Nat)                 -- Call(f, d) with fireT = t (f non-nil)
   | cancel (id : Nat)             -- fu.Cancel()
-  | popIfDue (now : Nat)          -- watcher section: pop the head iff now.After(head.fireT)
+  | popIfDue (now : Nat)          -- watcher section: pop the head iff !now.Before(head.fireT)
   | rawPop                        -- heap.Pop regardless of time (used to drive the heap alone)
 deriving DecidableEq, Repr
 
@@ -129,7 +129,7 @@ def Heap.step (h : Heap) : Op → Heap × Out
     match h.arr.head? with
     | none => (h, .empty)
     | some hd =>
-      if now > ((h.get hd).map (·.fireT)).getD 0 then
+      if now ≥ ((h.get hd).map (·.fireT)).getD 0 then
         match h.hPop with
         | some (h', id) => (h', .popped id (((h.get id).map (·.hasF)).getD false))
         | none => (h, .undefined)
